@@ -122,9 +122,17 @@ func c17Sequence(w *mon.W, id string, n int) {
 
 func c17Barcodes(w *mon.W, id string, L, n int, bans []string, filters []bcFilter, adversarial string) {
 	fns := make([]func(string) bool, len(filters))
-	var fnames []string
 	for i, f := range filters {
 		fns[i] = f.fn
+	}
+	c17BarcodesWith(w, id, L, n, append([]string(nil), bans...), bans, fns, filters, adversarial)
+}
+
+// c17BarcodesWith hands passBans and fns to the library and judges the result against the harness's own
+// copies (bans, filters): the caller's slices may be shared with earlier and later calls.
+func c17BarcodesWith(w *mon.W, id string, L, n int, passBans, bans []string, fns []func(string) bool, filters []bcFilter, adversarial string) {
+	var fnames []string
+	for _, f := range filters {
 		fnames = append(fnames, f.name)
 	}
 	rep := map[string]any{"length": L, "order": n, "bans": bans, "filters": fnames, "construction": adversarial}
@@ -133,7 +141,7 @@ func c17Barcodes(w *mon.W, id string, L, n int, bans []string, filters []bcFilte
 		if len(bans) == 0 && len(filters) == 0 && L%2 == 0 {
 			got = primers.CreateBarcodes(L, n)
 		} else {
-			got = primers.CreateBarcodesWithBannedSequences(L, n, bans, fns)
+			got = primers.CreateBarcodesWithBannedSequences(L, n, passBans, fns)
 		}
 	})
 	w.Eval((len(bans) > 0 || len(filters) > 0) && len(got) > 0, mon.Hash64(fmt.Sprint(L, n), strings.Join(bans, ","), strings.Join(fnames, ",")))
@@ -281,6 +289,27 @@ func runC17(w *mon.W) {
 			}
 		}
 		w.Begin(id, fmt.Sprintf("L=%d n=%d bans=%v filters=%d %s", L, n, bans, len(filters), constr))
+		if i%4 == 3 && (len(bans) > 0 || len(filters) > 0) {
+			// one ban slice and one filter slice serve two requests: first short barcodes with the first few
+			// filters, then the request proper with all of them
+			w.Add("lists_requested_after_another_request_on_the_same_slices", 1)
+			passBans := append(make([]string, 0, len(bans)+2), bans...)
+			fnsAll := make([]func(string) bool, len(filters), len(filters)+2)
+			for k, f := range filters {
+				fnsAll[k] = f.fn
+			}
+			k1 := 0
+			if len(filters) > 0 {
+				k1 = r.Intn(len(filters))
+			}
+			L1 := n + r.Intn(4)
+			w.End()
+			w.Begin(id, fmt.Sprintf("L=%d n=%d bans=%v first %d of %d filters, then L=%d with all: %s", L1, n, bans, k1, len(filters), L, constr))
+			c17BarcodesWith(w, id, L1, n, passBans, bans, fnsAll[:k1], filters[:k1], constr+"; first request on shared slices")
+			c17BarcodesWith(w, id, L, n, passBans, bans, fnsAll, filters, constr+fmt.Sprintf("; after a request for length %d with the first %d filters on the same slices", L1, k1))
+			w.End()
+			continue
+		}
 		c17Barcodes(w, id, L, n, bans, filters, constr)
 		w.End()
 	}
